@@ -147,6 +147,10 @@ class FakeNumpy:
             return list(range(*a))
         if len(a) == 1:
             return Arr([a[0]], None, 'int', None, {'arange': (0, a[0])}, 'arange')
+        if all(isinstance(x, (int, float)) for x in a):
+            import numpy as _np
+            vals = [float(x) for x in _np.arange(*a)]
+            return Arr([len(vals)], None, 'real', None, {'value': vals}, 'arange')
         raise AnalysisError('np.arange with symbolic start/step has no model')
 
     # ---- structure
@@ -200,14 +204,26 @@ class FakeNumpy:
 
     @staticmethod
     def exp(a):
+        if isinstance(a, (int, float, complex)):
+            import cmath
+            import math
+            return cmath.exp(a) if isinstance(a, complex) else math.exp(a)
         a = as_arr(a)
         return Arr(a.shape, a.legs, a.dt, None, {}, 'exp')
 
-    sin = cos = exp
+    @staticmethod
+    def sin(a):
+        a = as_arr(a)
+        return Arr(a.shape, a.legs, a.dt, None, {}, 'sin')
+
+    cos = sin
 
     @staticmethod
     def diag(v, k=0):
         v = as_arr(v)
+        if v.ndim == 1 and k != 0:
+            n = v.shape[0] + abs(k)
+            return Arr([n, n], None, v.dt, None, {'diag_of': v, 'diag_offset': k}, 'diag')
         if v.ndim == 1:
             n = v.shape[0]
             t = {'diag_of': v, 'prov': v.tags.get('prov'), 'const': 'projector' if v.tags.get('const') == 'unitvec' else None, 'unit_index': v.tags.get('unit_index')}
@@ -437,8 +453,13 @@ class FakeNumpy:
         raise AnalysisError('np.unique in this form has no model')
 
     @staticmethod
-    def binary_repr(*a, **k):
-        raise AnalysisError('np.binary_repr has no model')
+    def binary_repr(num, width=None):
+        if isinstance(num, Arr) and isinstance(num.tags.get('value'), int):
+            num = num.tags['value']
+        if not isinstance(num, int) or not (width is None or isinstance(width, int)):
+            raise AnalysisError('np.binary_repr of a symbolic number has no model')
+        import numpy as _np
+        return _np.binary_repr(num, width=width)
 
 
 def _simple_env():
